@@ -1044,6 +1044,9 @@ impl VersionSet {
                     change_manifest.wal_file_number.as_ref(),
                     prev_sequence_num
                 );
+                #[cfg(feature = "verif")]
+                crate::verif::sched::point("", "bg:manifest-write");
+
                 let serialized_manifest: Vec<u8> = Vec::from(change_manifest);
                 manifest_file.lock().append(&serialized_manifest)?;
 
